@@ -66,6 +66,27 @@ def corpus(scratch, rnd):
     img = mkdisc.surface_dfs(720, 42, title=b"GZMFM", entries=files(720))
     p = mkflux.image_to_flux(bytes(img), 40, 18, "MFM", "mfm", os.path.join(scratch, "f.mfm"))
     items.append(("mfm", p, base_cmds[:8]))
+    # an HFE file that ends exactly where its last track ends (no 512-byte padding): the reader's last read is short
+    raw = open(p, "rb").read() if False else None
+    hp = os.path.join(scratch, "nopad.hfe")
+    img2 = mkdisc.surface_dfs(400, 44, title=b"NOPAD", entries=files(400))
+    mkflux.image_to_flux(bytes(img2), 40, 10, "FM", "hfe", hp, exact_len=True, gaps=dict(gap1=21, gap2=None, gap3=None, gap4=None, sync=None))
+    data = open(hp, "rb").read()
+    import struct
+    off, ln = struct.unpack("<HH", data[512 + 4 * 39:512 + 4 * 39 + 4])
+    open(hp, "wb").write(data[: off * 512 + ln - 256])        # side 0 only, and nothing after the last side-0 block
+    items.append(("hfe-nopad", hp, base_cmds[:8]))
+    # ".gz" occurring earlier in the path must not matter: a directory called mirror.gz and a file called disc.gz.ssd
+    gzdir = os.path.join(scratch, "mirror.gz")
+    os.makedirs(gzdir, exist_ok=True)
+    d = discs.build("DFS", files(570), gzdir, "h600", nsectors=800, total=600, salt=8, ext="ssd", title=b"HINT600")
+    items.append(("hint-600-in-gz-dir", d.path, [["cat"], ["info", "#.*"], ["sector-map"], ["type", "--binary", "A"]]))
+    d = discs.build("DFS", files(570), scratch, "disc.gz", nsectors=800, total=600, salt=8, ext="ssd", title=b"HINT600")
+    items.append(("hint-600-gz-in-name", d.path, [["cat"], ["info", "#.*"], ["sector-map"], ["type", "--binary", "A"]]))
+    s0 = mkdisc.surface_dfs(800, 25, title=b"GSIDE0", total=600, entries=files(570))
+    s1 = mkdisc.surface_dfs(800, 26, title=b"GSIDE1", total=600, entries=files(560))
+    p2 = mkdisc.write(os.path.join(gzdir, "two.dsd"), mkdisc.container_interleaved(s0, s1, 10))
+    items.append(("dsd-in-gz-dir", p2, [["cat", "0"], ["cat", "2"], ["type", "--binary", ":2.$.A"], ["show-titles"]]))
     # tiny and odd sizes
     img = mkdisc.surface_dfs(400, 43, title=b"TINY", total=400)
     for nsec in (2, 3, 17):
@@ -101,7 +122,7 @@ def run(chk, tier, seed):
         for tag, path, cmds in items:
             data = open(path, "rb").read()
             variants = [("l6", gz_bytes(data, 6))]
-            if not quick or tag.startswith(("hint", "dfs-400", "mmb", "hfe")):
+            if not quick or tag.startswith(("hint", "dfs-400", "mmb", "hfe", "dsd-in")):
                 variants += [("l0", gz_bytes(data, 0)), ("l9", gz_bytes(data, 9)), ("l1-name", gz_bytes(data, 1, fname=b"original-name"))]
             # compressed size modulo the 512-byte input buffer: pad the FNAME field
             base = gz_bytes(data, 6, fname=b"p")
@@ -116,6 +137,9 @@ def run(chk, tier, seed):
             i, (tag, path, cmds, vn, gzdata) = ij
             sub = os.path.join(scratch, "g%d" % i)
             os.makedirs(sub)
+            if os.path.basename(os.path.dirname(path)).endswith(".gz"):
+                sub = os.path.join(sub, os.path.basename(os.path.dirname(path)))
+                os.makedirs(sub)
             gzpath = os.path.join(sub, os.path.basename(path) + ".gz")
             open(gzpath, "wb").write(gzdata)
             plain = os.path.join(sub, os.path.basename(path))
@@ -127,7 +151,7 @@ def run(chk, tier, seed):
                 evs.append(dict(e="same", tag=tag, variant=vn, cmd=cmd[:2], same=1 if (a.out == b.out and a.rc == b.rc) else 0,
                                 rc=a.rc if a.rc is not None else -9, rc_gz=b.rc if b.rc is not None else -9, clean=1 if b.ok_alphabet() else 0,
                                 err_gz=b.err.decode("latin1")[:200]))
-            shutil.rmtree(sub, ignore_errors=True)
+            shutil.rmtree(os.path.join(scratch, "g%d" % i), ignore_errors=True)
             return evs
         for evs in common.pmap(do, list(enumerate(jobs))):
             events += evs
